@@ -12,9 +12,10 @@ CLAIMED = ["C01", "C02", "C03", "C04", "C05", "C06", "C07", "C08", "C09", "C10",
 
 # models integrated and reviewed; a claimed property is decided by its READY models only (models still
 # under construction serve only properties that are not yet claimed)
-READY = {"RoleTransfer", "Fungible", "Vault", "MulDiv", "Gates", "Access", "VaultBig", "Timelock", "TimelockController", "Rwa", "Nft", "Policies", "Merkle", "Verifiers", "FeeForwarder", "SmartAccount"}
+READY = {"RoleTransfer", "Fungible", "Vault", "MulDiv", "Gates", "Access", "VaultBig", "Timelock", "TimelockController", "Rwa", "Nft", "Policies", "Merkle", "Verifiers", "FeeForwarder", "SmartAccount", "Royalties"}
 
 MODELS, PROPS = {}, {}
+EXTRA_MODELS = set()   # models of behaviour beyond the listed properties (ids X01, X02, ...; `./check extra`)
 for fn in sorted(os.listdir(_here)):
     if not fn.endswith(".py") or fn in ("common.py",):
         continue
@@ -22,6 +23,8 @@ for fn in sorted(os.listdir(_here)):
     if getattr(mod, "DISABLED", False):
         continue
     MODELS[mod.NAME] = mod.MODEL
+    if getattr(mod, "EXTRA", False):
+        EXTRA_MODELS.add(mod.NAME)
     for pid, extra in mod.SERVES.items():
         P = PROPS.setdefault(pid, dict(models=[], assumptions=[]))
         P["models"].append(mod.NAME)
